@@ -73,6 +73,11 @@ func c18Gen(r *rand.Rand, tier string) any {
 			// the same loaded project
 			op = opSpec{Op: "build", Label: op.Label, DryNil: true, N: r.IntN(2), Fail: op.Fail}
 		}
+		if r.IntN(7) == 0 && !op.Twice && !op.DryNil && !op.Reload {
+			// the REPL: run(label, always=, dry_run=, callback=f) - the events reach a Starlark
+			// callback through the channel-based adapter in events.go
+			op.REPL, op.N = true, 0
+		}
 		if r.IntN(14) == 0 {
 			// a typo on the command line: the requested label names no target
 			op.Label = []string{"//:no_such_target", "//no_such_pkg:default", ":no_such"}[r.IntN(3)]
@@ -226,6 +231,54 @@ func checkRunEvents(h *histRun, op *opSpec, evs []eventRec, runErr error, writte
 	return nil
 }
 
+// checkReplEvents: the protocol as a Starlark callback sees it (event structs handed over by
+// the adapter behind the REPL's run builtin). Output lines do not travel this way (the line
+// writers keep the event sink of the load), so the words are over the target events only.
+func checkReplEvents(h *histRun, op *opSpec, evs []eventRec, runErr error) *simcheck.Violation {
+	words := map[string][]string{}
+	var order []string
+	runDone, doneAt := 0, -1
+	lastAt := map[string]int{}
+	cyclicRun := false
+	for i, e := range evs {
+		switch e.Kind {
+		case "RunDone":
+			runDone++
+			doneAt = i
+			if e.Text != errText(runErr) {
+				return simcheck.V("run-done-error", "the callback's run-done carried %q but run() returned %q", e.Text, errText(runErr))
+			}
+		case "Print":
+		default:
+			if _, ok := words[e.Label]; !ok {
+				order = append(order, e.Label)
+			}
+			words[e.Label] = append(words[e.Label], strings.TrimPrefix(e.Kind, "Target"))
+			lastAt[e.Label] = i
+			if strings.Contains(e.Text, "cyclic dependency") {
+				cyclicRun = true
+			}
+		}
+	}
+	if runDone != 1 {
+		return simcheck.V("run-done-count", "run(%s, callback=...) delivered %d run-done events to the callback", op.Label, runDone)
+	}
+	for _, l := range order {
+		if cyclicRun && l != op.Label {
+			continue
+		}
+		switch word := strings.Join(words[l], " "); word {
+		case "UpToDate", "Evaluating Succeeded", "Evaluating Failed", "Failed":
+		default:
+			return simcheck.V("event-word", "events of %s handed to the callback of run(%s, callback=...) are [%s]: a target produces one up-to-date event, or evaluating followed by one succeeded or failed event, or a lone failed event", l, op.Label, word)
+		}
+	}
+	if at, ok := lastAt[op.Label]; ok && at > doneAt {
+		return simcheck.V("run-done-order", "run-done reached the callback before the last event of the requested target %s", op.Label)
+	}
+	return nil
+}
+
 func c18Exec(scAny any, c *simcheck.Ctx) *simcheck.Violation {
 	sc := scAny.(*histScenario)
 	if sc.Spec == nil || len(sc.Spec.Targets) == 0 {
@@ -236,6 +289,10 @@ func c18Exec(scAny any, c *simcheck.Ctx) *simcheck.Violation {
 	each := func(h *histRun, i int, op *opSpec, res *procResult) *simcheck.Violation {
 		if op.Op != "build" || !res.Ran {
 			return nil
+		}
+		if op.REPL {
+			c.St.Count("runs_through_the_repl_builtin_checked", 1)
+			return checkReplEvents(h, op, h.w.replEvents, res.RunErr)
 		}
 		// "evaluating is reported exactly when the body runs (or would, in a dry run)"
 		if op.Dry && !op.Twice && op.N == 0 && res.RunErr == nil {
